@@ -354,3 +354,53 @@ func LoadReplay(path string, v any) (*ReplayFile, error) {
 	}
 	return &rf, nil
 }
+
+// ---------------------------------------------------------------------------
+// exploration mode (development aid): with VERIF_EXPLORE=1 failures are
+// tallied by class instead of stopping the run, so that all failure classes
+// of a generator show up in one pass. Never used by registered commands.
+
+var exploring = os.Getenv("VERIF_EXPLORE") != ""
+
+type exploreRec struct {
+	n       int
+	example string
+}
+
+var (
+	exploreMu  sync.Mutex
+	exploreMap = map[string]*exploreRec{}
+)
+
+// Explore returns true (and swallows the failure) in exploration mode.
+func Explore(class string, err error) bool {
+	if !exploring {
+		return false
+	}
+	exploreMu.Lock()
+	defer exploreMu.Unlock()
+	r := exploreMap[class]
+	if r == nil {
+		r = &exploreRec{example: err.Error()}
+		exploreMap[class] = r
+	}
+	if len(err.Error()) < len(r.example) {
+		r.example = err.Error()
+	}
+	r.n++
+	return true
+}
+
+func ExploreReport(t testing.TB) {
+	if !exploring {
+		return
+	}
+	keys := make([]string, 0, len(exploreMap))
+	for k := range exploreMap {
+		keys = append(keys, k)
+	}
+	sort.Slice(keys, func(i, j int) bool { return exploreMap[keys[i]].n > exploreMap[keys[j]].n })
+	for _, k := range keys {
+		t.Logf("EXPLORE class=%q n=%d\n%s\n", k, exploreMap[k].n, exploreMap[k].example)
+	}
+}
